@@ -139,7 +139,7 @@ func (r *Router) handleTunPacket(w *mgr.WorkerCtx, packetData []byte) { //nolint
 	session := r.instance.State().GetSession(dst)
 	if session == nil || !session.Encryption().IsSetUp() {
 		// Setup encryption with hello ping.
-		notify, err := r.HelloPing.Send(dst)
+		notify, err := r.HelloPing.SendIfNeeded(dst)
 		if err != nil {
 			switch {
 			case errors.Is(err, ErrTableEmpty):
